@@ -29,7 +29,7 @@ def loc_of(s):
     return s.get("cs", s.get("sp", "?"))
 
 def own_file(s):
-    return s.get("sp", "?").split(":")[0]
+    return s.get("sp", "?").rsplit(":", 2)[0]
 
 def is_tracing_prov(s):
     """Was this code written inside one of the tracing crates' macro definitions?"""
@@ -175,7 +175,7 @@ class Body:
         self.blocks = {b["id"]: b for b in raw["blocks"]}
         self.locals = {l["l"]: l for l in raw["locals"]}
         self.captures = raw.get("captures", [])
-        self.file = loc_of(raw["span"]).split(":")[0]
+        self.file = loc_of(raw["span"]).rsplit(":", 2)[0]
         self.tracing_prov = own_file(raw["span"]).startswith("dep:tracing")
         self._defs = None
         self._origin_cache = {}
@@ -670,6 +670,113 @@ class Path:
         return [e[1] for e in self.events if e[0] == "eff" and (kind is None or e[1].kind == kind)]
 
 
+
+VISIBLE_KINDS = ("send", "pstore", "usercall", "iternext", "spawn", "sleep", "indirect", "lock", "localcall", "poll")
+
+def effect_visible(prog, e):
+    """Is this effect part of the protocol skeleton (as opposed to tau)?"""
+    if e.kind in ("alias", "other", "hocall", "usertrait"):
+        return False
+    if e.kind == "atomic":
+        return True
+    if e.kind == "cell":
+        return True
+    if e.kind == "thunk":
+        tb = prog.bodies.get(e.target)
+        return not (tb is not None and tb.tracing_prov)
+    if e.kind == "panic":
+        return not e.tracing
+    return e.kind in VISIBLE_KINDS
+
+
+def ipdoms(body):
+    """Immediate post-dominators over the non-cleanup CFG (virtual exit = -1)."""
+    if getattr(body, "_ipdom", None) is not None:
+        return body._ipdom
+    nodes = [b for b, blk in body.blocks.items() if not blk["cleanup"]]
+    succ = {}
+    for b in nodes:
+        ss = [x for x in body.blocks[b]["term"]["succ"] if x in body.blocks and not body.blocks[x]["cleanup"]]
+        succ[b] = ss if ss else [-1]
+    succ[-1] = []
+    alln = set(nodes) | {-1}
+    pdom = {n: set(alln) for n in alln}
+    pdom[-1] = {-1}
+    changed = True
+    order = sorted(nodes, reverse=True)
+    while changed:
+        changed = False
+        for n in order:
+            new = None
+            for x in succ[n]:
+                new = set(pdom[x]) if new is None else (new & pdom[x])
+            new = (new or set()) | {n}
+            if new != pdom[n]:
+                pdom[n] = new
+                changed = True
+    ip = {}
+    for n in nodes:
+        cands = pdom[n] - {n}
+        best = None
+        for c in cands:
+            # the immediate post-dominator is the candidate post-dominated by no... i.e. whose pdom set is the largest
+            if best is None or len(pdom[c]) > len(pdom[best]):
+                best = c
+        ip[n] = best
+    body._ipdom = ip
+    return ip
+
+
+def region_between(body, start_succs, join):
+    seen = set()
+    stack = list(start_succs)
+    while stack:
+        b = stack.pop()
+        if b == join or b in seen or b not in body.blocks or body.blocks[b]["cleanup"]:
+            continue
+        seen.add(b)
+        stack.extend(body.blocks[b]["term"]["succ"])
+    return seen
+
+
+def region_is_tau(prog, body, region):
+    for b in region:
+        blk = body.blocks[b]
+        if blk["term"]["k"] in ("return", "yield"):
+            return False
+        e = body.effects.get(b)
+        if e is not None and effect_visible(prog, e) and not e.tracing:
+            return False
+        for (bb, i), se in body.stmt_effects.items():
+            if bb == b and not se.tracing:
+                return False
+    return True
+
+
+def flag_diamond(body, t):
+    """switch on a drop flag whose one side only drops and re-joins the other: return the join target."""
+    if len(t["targets"]) != 1:
+        return None
+    a = t["targets"][0][1]
+    b = t["otherwise"]
+    for (x, y) in ((a, b), (b, a)):
+        cur = y
+        for _ in range(6):
+            blk = body.blocks.get(cur)
+            if blk is None or blk["cleanup"]:
+                break
+            k = blk["term"]["k"]
+            only_flags = all(("lhs" not in st) or (not st["lhs"]["p"] and st["lhs"]["l"] in body.flag_locals) for st in blk["stmts"])
+            if k in ("drop", "goto") and only_flags:
+                nxt = blk["term"]["succ"][0]
+                if nxt == x:
+                    return x
+                cur = nxt
+                continue
+            break
+    return None
+
+
 def message_discr(body, e):
     """Is e the discriminant of the handler's incoming message?"""
     return e[0] == "discr" and e[1] == ("param", body.id, 2)
@@ -771,6 +878,10 @@ def enumerate_paths(prog, body, variant=None, entry=0, max_visits=2, inline=1, l
                 do = t["discr"]
                 pl = do.get("copy") or do.get("move")
                 if pl is not None and not pl["p"] and pl["l"] in body.flag_locals:
+                    dj = flag_diamond(body, t)
+                    if dj is not None:
+                        bid = dj
+                        continue
                     val = env.get(pl["l"])
                     if val is not None:
                         val = int(val) if str(val).isdigit() else (1 if val == "true" else 0)
@@ -796,6 +907,14 @@ def enumerate_paths(prog, body, variant=None, entry=0, max_visits=2, inline=1, l
                             tgt = b
                     bid = tgt
                     continue
+                if own_file(blk["ts"]).startswith("dep:tracing") or own_file(blk["ts"]).startswith("dep:log"):
+                    j = ipdoms(body).get(bid)
+                    if j is not None and j != -1:
+                        reg = region_between(body, t["succ"], j)
+                        if region_is_tau(prog, body, reg):
+                            events = events + [("tau", (body.id, bid))]
+                            bid = j
+                            continue
                 cond = prog.link(de)
                 seen_t = set()
                 alts = [(v, b) for v, b in t["targets"]] + [("otherwise", t["otherwise"])]
